@@ -221,6 +221,9 @@ def run_case(case):
                         pdu = ble.build_pdu(bytes.fromhex(pk["mac"]), [bytes.fromhex(pk["rawad"])])
                     else:
                         pdu = ble.build_pdu(bytes.fromhex(pk["mac"]), [ble.ad(t, d) for t, d in ads])
+                    if pk.get("len_or"):
+                        # a foreign transmitter: the length byte has high bits set, the CRC-24 is correct for these very bytes
+                        pdu = bytes([pdu[0], pdu[1] | pk["len_or"]]) + pdu[2:]
                     payload = ble.encode_radio_payload(pdu, blech, corrupt_crc=bool(pk.get("bad_crc")))
                     for bit in pk.get("flips", []):
                         payload = bytearray(payload)
@@ -229,7 +232,11 @@ def run_case(case):
                 payload = (payload + bytes(32))[:32]
                 p = ble.parse_radio_payload(payload, blech)
                 ok = "error" not in p and p["crc_ok"]
-                if not ok:
+                if pk.get("len_or") and ok:
+                    # reserved bits set in the length byte: a receiver may ignore them (specification) or ignore the packet;
+                    # either way it must not raise, and whatever it queues is taken out again unjudged
+                    expected.append("maybe")
+                elif not ok:
                     expected.append(None)
                 elif kind in ("enc",) and not pk.get("flips") and not pk.get("bad_crc") and "rawad" not in pk:
                     expected.append({"mac": p["mac"], "exp": expected_from_ads(p["ads"]), "tol": 1e-6})
@@ -255,6 +262,12 @@ def run_case(case):
                 return res
             want = expected[-1] if expected else None
             grew = len(rx.rx_queue) - n_before
+            if want == "maybe":
+                expected.pop()
+                res.label("reserved-length-bits")
+                for _ in range(max(0, grew)):
+                    rx.rx_queue.pop()
+                continue
             if want is None and grew:
                 res.fail("C19/inconsistent-packet-queued", "a payload whose length byte / CRC-24 is inconsistent was queued")
             if want is not None and grew != 1:
@@ -360,7 +373,8 @@ def _adv_strategy():
             lambda t: bytes([len(t[1]) + 1, t[0]]) + t[1]),
     )
     rawad = st.lists(piece, max_size=4).map(lambda ps: b"".join(ps)[:21])
-    pkt = st.fixed_dictionaries({"mac": st.binary(min_size=6, max_size=6).map(bytes.hex), "ads": st.just([]), "rawad": rawad.map(bytes.hex)})
+    pkt = st.fixed_dictionaries({"mac": st.binary(min_size=6, max_size=6).map(bytes.hex), "ads": st.just([]), "rawad": rawad.map(bytes.hex),
+                                 "len_or": st.sampled_from([0, 0, 0, 0x40, 0x80, 0xC0])})
     return st.fixed_dictionaries({"kind": st.just("adv"), "hops": st.integers(0, 2), "packets": st.lists(pkt, min_size=1, max_size=3)})
 
 
